@@ -773,6 +773,20 @@ func (g *G) program() *Program {
 			}
 			continue
 		}
+		if len(avail) > 0 && g.splits < g.O.MaxSplit && g.coin(g.O.Split/2) {
+			// a relay: a top-level process that splits another one, gets rid of one half and
+			// forwards to the other
+			k := g.R.Intn(len(avail))
+			if v := avail[k]; v.T.M.Contract() && Geq(v.T.M, f0) {
+				w := g.fresh("v")
+				var body *Term
+				g.scope(func() { body = g.splitFwd(v, v.T, g.O.Fuel, "self") })
+				g.P.Procs = append(g.P.Procs, &Proc{Names: []string{w}, T: v.T, Body: body})
+				avail[k] = Var{w, v.T}
+				g.feat("top-relay")
+				continue
+			}
+		}
 		m := f0
 		if g.O.Mixed {
 			ms := g.modesAbove(f0)
